@@ -2,6 +2,7 @@ package main
 
 import (
 	"fmt"
+	"regexp"
 	"go/ast"
 	"go/parser"
 	"go/token"
@@ -143,7 +144,7 @@ func (E *Engine) encodeOnce(key string, preset map[string]string) (enc *FnEnc, e
 	}
 	for _, st := range fc.Stable {
 		ctx := &evalCtx{f: f, pkg: fn.Pkg.Pkg, bind: f.selfBind(), heap: f.curHeap, what: "stable clause of " + key}
-		ex, perr := parser.ParseExpr(st)
+		ex, perr := parseExprText(st)
 		if perr != nil {
 			cfail("stable: %v", perr)
 		}
@@ -212,6 +213,12 @@ func (f *frame) evalContractBool(cl *Clause, heap Heap, extra map[string]SV, old
 // point: a phi of the current/enclosing loop head, an address-taken local, or a local
 // with a single definition (from debug references).
 func (f *frame) resolveName(name string) (SV, bool) {
+	// name#k: the k-th variable of that name in declaration order (shadowing)
+	if i := strings.Index(name, "#"); i > 0 {
+		var k int
+		fmt.Sscanf(name[i+1:], "%d", &k)
+		return f.resolveNth(name[:i], k)
+	}
 	// phi nodes, innermost loop first
 	var cands []*ssa.Phi
 	if f.curLoop != nil {
@@ -293,24 +300,83 @@ func (f *frame) loopDecreases(li *loopInfo) []*Clause {
 	return nil
 }
 
+// Variants.  "decreases@k e" is a non-negative integer that strictly decreases on every
+// back edge.  A lexicographic variant lists components separated by ";"; a component
+// "up e to b" increases and is bounded above by b (compared without subtraction, which
+// keeps the bit-vector queries easy), "e" (or "down e") decreases and is >= 0.
+type variantComp struct {
+	up    bool
+	expr  string
+	bound string
+}
+
+func parseVariant(text string) []variantComp {
+	var cs []variantComp
+	for _, part := range splitTop(text, ";") {
+		part = strings.TrimSpace(part)
+		c := variantComp{expr: part}
+		if strings.HasPrefix(part, "up ") {
+			c.up = true
+			rest := strings.TrimSpace(part[3:])
+			if i := strings.Index(rest, " to "); i >= 0 {
+				c.expr = strings.TrimSpace(rest[:i])
+				c.bound = strings.TrimSpace(rest[i+4:])
+			} else {
+				cfail("decreases: 'up e' needs 'to bound'")
+			}
+		} else if strings.HasPrefix(part, "down ") {
+			c.expr = strings.TrimSpace(part[5:])
+		}
+		cs = append(cs, c)
+	}
+	return cs
+}
+
+func (f *frame) variantValues(li *loopInfo, text string) (vals, bounds []string, comps []variantComp) {
+	bind := f.selfBind()
+	ctx := &evalCtx{f: f, pkg: f.fn.Pkg.Pkg, bind: bind, heap: f.curHeap, oldHeap: f.entryHeap, oldBind: bind, what: "decreases of " + f.contract.Key}
+	ctx.lookup = func(name string) (SV, bool) { return f.resolveName(name) }
+	comps = parseVariant(text)
+	for _, c := range comps {
+		e, err := parseExprText(c.expr)
+		if err != nil {
+			cfail("decreases: %v", err)
+		}
+		vals = append(vals, ctx.toInt64(ctx.eval(e)))
+		b := ""
+		if c.bound != "" {
+			be, err := parseExprText(c.bound)
+			if err != nil {
+				cfail("decreases: %v", err)
+			}
+			b = ctx.toInt64(ctx.eval(be))
+		}
+		bounds = append(bounds, b)
+	}
+	return
+}
+
 func (f *frame) recordVariant(li *loopInfo) {
 	ds := f.loopDecreases(li)
 	if len(ds) == 0 {
 		return
 	}
-	bind := f.selfBind()
-	ctx := &evalCtx{f: f, pkg: f.fn.Pkg.Pkg, bind: bind, heap: f.curHeap, oldHeap: f.entryHeap, oldBind: bind, what: "decreases of " + f.contract.Key}
-	ctx.lookup = func(name string) (SV, bool) { return f.resolveName(name) }
-	e, err := parseExprText(ds[0].Text)
-	if err != nil {
-		cfail("decreases: %v", err)
-	}
-	v := ctx.toInt64(ctx.eval(e))
-	n := f.enc.define(f.enc.fresh(fmt.Sprintf("variant@%d", li.ord)), bv64, v)
+	vals, bounds, _ := f.variantValues(li, ds[0].Text)
 	if f.variants == nil {
-		f.variants = map[int]string{}
+		f.variants = map[int][]string{}
+		f.variantBounds = map[int][]string{}
 	}
-	f.variants[li.ord] = n
+	var names, bnames []string
+	for i, v := range vals {
+		names = append(names, f.enc.define(f.enc.fresh(fmt.Sprintf("variant@%d.%d", li.ord, i+1)), bv64, v))
+		if bounds[i] != "" {
+			bnames = append(bnames, f.enc.define(f.enc.fresh(fmt.Sprintf("vbound@%d.%d", li.ord, i+1)), bv64, bounds[i]))
+		} else {
+			bnames = append(bnames, "")
+		}
+	}
+	f.variants[li.ord] = names
+	f.variantBounds[li.ord] = bnames
 }
 
 func (f *frame) checkVariant(li *loopInfo) {
@@ -319,13 +385,29 @@ func (f *frame) checkVariant(li *loopInfo) {
 		return
 	}
 	head := f.variants[li.ord]
-	bind := f.selfBind()
-	ctx := &evalCtx{f: f, pkg: f.fn.Pkg.Pkg, bind: bind, heap: f.curHeap, oldHeap: f.entryHeap, oldBind: bind, what: "decreases of " + f.contract.Key}
-	ctx.lookup = func(name string) (SV, bool) { return f.resolveName(name) }
-	e, _ := parseExprText(ds[0].Text)
-	v := ctx.toInt64(ctx.eval(e))
-	f.oblige(fmt.Sprintf("dec.bound@%d", li.ord), "", fmt.Sprintf("(bvsge %s #x0000000000000000)", head), ds[0].Text, token.NoPos)
-	f.oblige(fmt.Sprintf("dec.step@%d", li.ord), "", fmt.Sprintf("(bvslt %s %s)", v, head), ds[0].Text, token.NoPos)
+	hb := f.variantBounds[li.ord]
+	vals, _, comps := f.variantValues(li, ds[0].Text)
+	var bound []string
+	for i, c := range comps {
+		if c.up {
+			bound = append(bound, fmt.Sprintf("(bvsle %s %s)", head[i], hb[i]))
+		} else {
+			bound = append(bound, fmt.Sprintf("(bvsge %s #x0000000000000000)", head[i]))
+		}
+	}
+	// lexicographic strict decrease
+	step := "false"
+	for i := len(comps) - 1; i >= 0; i-- {
+		var lt string
+		if comps[i].up {
+			lt = fmt.Sprintf("(bvsgt %s %s)", vals[i], head[i])
+		} else {
+			lt = fmt.Sprintf("(bvslt %s %s)", vals[i], head[i])
+		}
+		step = or(lt, and(fmt.Sprintf("(= %s %s)", vals[i], head[i]), step))
+	}
+	f.oblige(fmt.Sprintf("dec.bound@%d", li.ord), "", and(bound...), ds[0].Text, token.NoPos)
+	f.oblige(fmt.Sprintf("dec.step@%d", li.ord), "", step, ds[0].Text, token.NoPos)
 }
 
 // postconditions: one obligation per ensures clause, over all return sites.
@@ -362,6 +444,7 @@ func (f *frame) postconditions() {
 	}
 	for i, en := range fc.Ensures {
 		var conj []string
+		var parts []oblPart
 		for _, r := range f.rets {
 			extra := map[string]SV{}
 			var res SV
@@ -388,16 +471,22 @@ func (f *frame) postconditions() {
 			c := f.evalContractBool(en, r.heap, extra, nil)
 			f.curPC = save
 			conj = append(conj, implies(r.pc, c))
+			parts = append(parts, oblPart{PC: r.pc, Cond: c})
 		}
 		cond := and(conj...)
 		if en.Region != "" {
 			rg := f.evalContractBool(&Clause{Kind: "region", Text: en.Region, Func: fc.Key, File: en.File, Line: en.Line}, f.entryHeap, nil, nil)
 			cond = or(rg, cond)
+			parts = nil
 		}
 		save := f.curPC
 		f.curPC = e.prePC
 		label := en.Label
 		f.obligeClause(fmt.Sprintf("post.%d", i+1), label, cond, en)
+		if len(parts) > 3 {
+			// many return sites: one query per site (same obligation, smaller queries)
+			e.obls[len(e.obls)-1].Parts = parts
+		}
 		f.curPC = save
 	}
 }
@@ -454,8 +543,12 @@ func (f *frame) throwObligations() {
 	}
 }
 
+var nthRe = regexp.MustCompile(`([A-Za-z_][A-Za-z0-9_]*)#([0-9]+)`)
+
+// parseExprText parses a contract expression; "name#k" (k-th variable of that name) is
+// passed through go/parser as the identifier name__nthk.
 func parseExprText(s string) (ast.Expr, error) {
-	return parser.ParseExpr(s)
+	return parser.ParseExpr(nthRe.ReplaceAllString(s, "${1}__nth${2}"))
 }
 
 // obligationsFor returns the obligations of enc relevant for a property, with props filled.
@@ -550,4 +643,73 @@ func (f *frame) frameObligation() {
 	f.curPC = "true"
 	f.oblige("frame.modifies", "", cond, text, token.NoPos)
 	f.curPC = save
+}
+
+// resolveNth resolves name#k through go/ssa's debug references: the k-th distinct
+// variable object of that name (by declaration position) and its unique non-constant value.
+func (f *frame) resolveNth(name string, k int) (SV, bool) {
+	type objInfo struct {
+		obj  types.Object
+		vals []ssa.Value
+	}
+	var objs []*objInfo
+	find := func(o types.Object) *objInfo {
+		for _, oi := range objs {
+			if oi.obj == o {
+				return oi
+			}
+		}
+		oi := &objInfo{obj: o}
+		objs = append(objs, oi)
+		return oi
+	}
+	info := f.enc.E.typeInfoFor(f.fn)
+	for _, b := range f.fn.Blocks {
+		for _, in := range b.Instrs {
+			d, ok := in.(*ssa.DebugRef)
+			if !ok || d.IsAddr {
+				continue
+			}
+			id, ok := d.Expr.(*ast.Ident)
+			if !ok || id.Name != name || info == nil {
+				continue
+			}
+			obj := info.ObjectOf(id)
+			if obj == nil {
+				continue
+			}
+			oi := find(obj)
+			if _, isConst := d.X.(*ssa.Const); isConst {
+				continue
+			}
+			dup := false
+			for _, v := range oi.vals {
+				if v == d.X {
+					dup = true
+				}
+			}
+			if !dup {
+				oi.vals = append(oi.vals, d.X)
+			}
+		}
+	}
+	sort.Slice(objs, func(i, j int) bool { return objs[i].obj.Pos() < objs[j].obj.Pos() })
+	if k < 1 || k > len(objs) {
+		cfail("%s#%d: only %d variables of that name in %s", name, k, len(objs), f.fn.Name())
+	}
+	oi := objs[k-1]
+	if len(oi.vals) != 1 {
+		cfail("%s#%d has %d definitions in %s", name, k, len(oi.vals), f.fn.Name())
+	}
+	sv, ok := f.vals[oi.vals[0]]
+	return sv, ok
+}
+
+func (E *Engine) typeInfoFor(fn *ssa.Function) *types.Info {
+	for _, p := range E.L.Pkgs {
+		if p.Types == fn.Pkg.Pkg {
+			return p.TypesInfo
+		}
+	}
+	return nil
 }
